@@ -154,7 +154,7 @@ func c04R1R2(p *Prog, r *Report, id1, id2 string) {
 	seenOwner := map[string]bool{}
 	cnt := map[string]int{}
 	for _, s := range sinks {
-		name := s.fi.Name()
+		name := p.anchorFor(s.fi, mapKeys(identitySinkOwners))
 		cnt[name]++
 		site := fmt.Sprintf("%s/identity sink#%d", name, cnt[name])
 		if why, ok := identitySinkOwners[name]; ok {
@@ -253,25 +253,11 @@ func containersFromMake(p *Prog, r *Report, id string, requireAlloc bool) {
 			}
 			okAlloc := false
 			for _, e := range cl.Elts {
-				ch, ok := chainOf(info, e)
-				if !ok || ch.Root != nil || ch.Links[0].Name != "If" || len(ch.Links) != 2 || ch.Links[1].Name != "Block" {
+				g := p.nilGuard(info, e)
+				if g == nil || !strings.HasPrefix(g.Cond, "sourceID") || len(g.BlockArgs) < 2 {
 					continue
 				}
-				// condition: sourceID … Op("!=").Nil()
-				cond, ok := chainOf(info, ch.Links[0].Args[0])
-				if !ok || cond.Has("Nil") == nil {
-					continue
-				}
-				if op := cond.Has("Op"); op == nil {
-					continue
-				} else if s, _ := constString(info, op.Args[0]); s != "!=" {
-					continue
-				}
-				blk := ch.Links[1].Args
-				if len(blk) < 2 {
-					continue
-				}
-				first, ok := chainOf(info, blk[0])
+				first, ok := chainOf(g.Info, g.BlockArgs[0])
 				if !ok || first.Root == nil || !strings.HasPrefix(exprString(first.Root), "assignTo") {
 					continue
 				}
@@ -280,10 +266,10 @@ func containersFromMake(p *Prog, r *Report, id string, requireAlloc bool) {
 				if mk == nil || op == nil || len(mk.Args) != 2 {
 					continue
 				}
-				if s, _ := constString(info, op.Args[0]); s != "=" {
+				if s, _ := constString(g.Info, op.Args[0]); s != "=" {
 					continue
 				}
-				ln, ok := chainOf(info, mk.Args[1])
+				ln, ok := chainOf(g.Info, mk.Args[1])
 				if !ok || ln.Links[0].Name != "Len" || !strings.HasPrefix(exprString(ln.Links[0].Args[0]), "sourceID") {
 					continue
 				}
